@@ -45,6 +45,7 @@ type Feat struct {
 	PErrFirst      float64
 	PReenter       float64
 	PThenProvide   float64 // probability that an invoked function registers a constructor from its body
+	PClone         float64 // probability that a Provide repeats the signature of an earlier constructor
 	DecoIntroduce  bool    // allow decorators for keys nobody provides (DESIGN §9 R3)
 }
 
@@ -301,7 +302,7 @@ func (g *genCtx) genCtor(s int) *Func {
 		f.OptGroup = res[0].Group
 		f.OptFlatten = res[0].Flatten
 		f.Results = []Result{{Kind: RSingle, T: res[0].T}}
-		if ft.As && !f.OptFlatten && !IsIface(res[0].T) && g.r.P(0.2) {
+		if ft.As && !f.OptFlatten && !IsIface(res[0].T) && g.r.P(0.35) {
 			for j := 0; j < NumI; j++ {
 				if Implements(res[0].T, j) && g.r.P(0.6) {
 					f.OptAs = append(f.OptAs, j)
@@ -654,6 +655,22 @@ func (g *genCtx) opProvide(s int) {
 		return
 	}
 	f := g.genCtor(s)
+	if g.r.P(g.ft.PClone) {
+		// the same signature as an earlier constructor (another function of
+		// the identical Go type), usually in another scope
+		var prev []int
+		for k := range g.h.Funcs[:f.ID] {
+			if c := &g.h.Funcs[k]; c.Role == RoleCtor && c.Cat < 0 && c.ThenProvide == 0 {
+				prev = append(prev, k)
+			}
+		}
+		if len(prev) > 0 {
+			id, salt := f.ID, f.Salt
+			*f = deepCopyFunc(&g.h.Funcs[prev[g.r.Intn(len(prev))]])
+			f.ID, f.Salt = id, salt
+			f.Reenter, f.ReKey, f.ReCB = false, nil, false
+		}
+	}
 	i := g.addOp(Op{Kind: OpProvide, Scope: s, Fn: f.ID})
 	if g.m.PredictProvide(s, f) == PredOK {
 		g.m.AddCtor(s, i, f)
@@ -836,6 +853,7 @@ func BaseFeat(r *Rng, thorough bool) Feat {
 	ft.PWide = []float64{0, 0, 0.03}[r.Intn(3)]
 	ft.Huge = r.P(0.004)
 	ft.PThenProvide = []float64{0, 0, 0.06}[r.Intn(3)]
+	ft.PClone = []float64{0, 0.05, 0.15}[r.Intn(3)]
 	ft.Info = r.P(0.3)
 	ft.PErrFirst = []float64{0, 0.15, 0.3}[r.Intn(3)]
 	if r.P(0.2) {
